@@ -30,6 +30,7 @@ import (
 	"github.com/oxia-db/oxia/common/concurrent"
 	"github.com/oxia-db/oxia/common/constant"
 	time2 "github.com/oxia-db/oxia/common/time"
+	"github.com/oxia-db/oxia/common/vhook"
 
 	"github.com/oxia-db/oxia/common/metric"
 	"github.com/oxia-db/oxia/proto"
@@ -179,6 +180,9 @@ func (nt *notificationsTracker) waitForNotifications(ctx context.Context, startO
 			slog.Int64("last-committed-offset", nt.lastOffset.Load()),
 		)
 
+		if vhook.Enabled {
+			vhook.At("notif.wait.before", startOffset)
+		}
 		if err := nt.cond.Wait(ctx); err != nil {
 			return err
 		}
